@@ -585,6 +585,38 @@ func c01(c *core.Ctx) {
 		c.EndRule()
 	}
 
+	// ---------------------------------------------------------------- R11
+	if c.Rule("R11", "HTTP: a call's request is put on the wire at most once: on no path of a function that issues the request (RoundTrip / Do, directly or through a helper) is a second issue reachable — the library cannot know that a request whose reply never arrived was not handled, so a re-sent request can deliver the caller's message twice", 2) {
+		n := 0
+		for _, fn := range p.LibFuncs("httpgrpc") {
+			isIssue := func(in ssa.Instruction) bool { return isRequestIssue(in) }
+			any := false
+			core.Instrs(fn, func(in ssa.Instruction) {
+				if isIssue(in) {
+					any = true
+				}
+			})
+			if !any {
+				continue
+			}
+			n++
+			_, mx, ok := core.CountRange(core.Entry(fn), isIssue, nil)
+			key := core.FuncName(fn) + ":request-issued-at-most-once"
+			switch {
+			case !ok:
+				c.Undecided(key, fn.Pos(), "no return reachable in a function that issues the request")
+			case mx > 1:
+				c.Fail(key, fn.Pos(), "the request can be issued more than once on one path (a retry, or a loop around the round trip): a request the server already handled is handled again, yet the call reports one delivery")
+			default:
+				c.Ok(key, fn.Pos(), "at most one issue on every path")
+			}
+		}
+		if n < 2 {
+			c.Fail("httpgrpc:request-issue-sites", token.NoPos, "ANCHOR-MISSING: expected the unary and the streaming request issue, found %d", n)
+		}
+		c.EndRule()
+	}
+
 	// ---------------------------------------------------------------- R8, R9 (shared)
 	// nothing is lost on the way: the in-process header accessor takes at most one frame and never parks over it
 	// (C20/R6), and the HTTP reply reader cannot end "successfully" without the trailer (C02/R1: a lost read error
@@ -1023,4 +1055,27 @@ func bufferish(t types.Type, depth int) string {
 func isConstInt(v ssa.Value, k int64) bool {
 	n, ok := core.ConstInt(v)
 	return ok && n == k
+}
+
+// isRequestIssue: in puts an HTTP request on the wire: RoundTrip / Do on an
+// interface or an *http.Client, or a call of a module function that does.
+func isRequestIssue(in ssa.Instruction) bool {
+	cc := core.CallOf(in)
+	if cc == nil {
+		return false
+	}
+	ci := core.InfoOf(cc)
+	if ci.Iface && ci.Name == "RoundTrip" {
+		return true
+	}
+	if ci.Is("net/http.Client.Do") || ci.Is("net/http.Transport.RoundTrip") {
+		return true
+	}
+	if ci.Static != nil && strings.HasPrefix(ci.Pkg, core.ModulePath) && ci.Static.Parent() == nil && mustCallRoundTrip(ci.Static, 0) {
+		if _, isGo := in.(*ssa.Go); isGo {
+			return false // the reader goroutine is started once; it is judged as a function of its own
+		}
+		return true
+	}
+	return false
 }
